@@ -171,6 +171,7 @@ class Check(PropertyCheck):
         texts += [c15.gen_input(self.rng).replace("{", "(") for _ in range(n // 3)]
         texts += [gen.nested_boxes([["{a}"], [self.rng.choice(["lbl", '"q-|"', "{b,w}"])]]) +
                   self.rng.choice(["", "\n# Legend:\na = {fill:red}\nb = {stroke:blue}\n"]) for _ in range(n // 6)]
+        texts += [gen.zoo(self.rng) for _ in range(n // 3)]
         return self.oracle(texts)
 
     def replay_case(self, case):
